@@ -8,15 +8,19 @@ follow the MRO); everything else is read from the source text with `ast`.
 FAIL-CLOSED: an AST node outside the supported grammar raises `Unsupported`, the item is
 reported with its error and is never silently skipped.
 
-Grammar of predicates (methods `can_*` / `support_*`):
-  body  ::= [docstring] (bind | memo | `return` expr)*
-  bind  ::= NAME `=` `self.device.get_domain_commands(Domain.D)`      (the command word)
-          | NAME `=` `self.device.get_domain_capability(Domain.D)`    (the capability word)
-  memo  ::= `if self.__c is None:` bind* `self.__c = expr`  ...  `return self.__c`
-  expr  ::= expr `and` expr | expr `or` expr | `not` expr | iexpr CMP iexpr | iexpr
-          | `self.can_y()` (one level) | True | False
-  iexpr ::= NAME `&` closed | closed `&` NAME | closed
-  closed::= INT | Commands.X | Capability.X | closed (`<<`|`>>`|`|`|`&`) closed | NAME bound by `NAME = closed`
+Predicates (methods `can_*` / `support_*`) are evaluated SYMBOLICALLY (class Scope) over the values
+word (`self.device.get_domain_commands(Domain.D)` / `get_domain_capability`), closed integer
+(INT, Commands.X, Capability.X, module/class constants assigned once, `<< >> | &` of those), masked
+word (`word & closed`), truth value, constant tuple, None:
+  statements : assignments to locals, `return`, `if/elif/else` (if-then-else on truth values), `for x in
+               <constant tuple>` (unrolled), the memoisation idiom `if self.__c is None: ... self.__c = e`
+  expressions: and/or/not, comparisons (`> >= < <= == !=`, `in`/`not in` a constant tuple), conditional
+               expressions, `bool()`, `all()`/`any()` over a comprehension or tuple, `self.can_y()` (one
+               level), `self.device.has_domain(Domain.D)`, calls to helpers of the SAME module / class
+               hierarchy (module functions, methods, staticmethods; inlined transitively, arguments bound,
+               defaults / keywords / *args supported)
+Anything else (other instance attributes, the word without a constant mask, foreign helpers, loops over
+non-constant collections, while/try ...) raises Unsupported.
 D must be the domain the connector class checks in its constructor.
 
 Grammar of constructors / operations: straight-line statements, `if`/`else`, `for`,
@@ -193,72 +197,399 @@ CMP = {ast.Gt: "OGt", ast.GtE: "OGe", ast.Lt: "OLt", ast.LtE: "OLe", ast.Eq: "OE
 VARS = {"cmds": "VCmds", "caps": "VCaps", "aux": "VAux"}
 
 
+CTAGS = ("c", "shl", "shr", "cor", "cand")
+
+
+def is_closed(v):
+    return isinstance(v, tuple) and len(v) > 0 and v[0] in CTAGS
+
+
+def b_not(x):
+    if x[0] == "const":
+        return ("const", not x[1])
+    if x[0] == "not":
+        return x[1]
+    return ("not", x)
+
+
+def b_and(x, y):
+    if x[0] == "const":
+        return y if x[1] else x
+    if y[0] == "const":
+        return x if y[1] else y
+    return ("and", x, y)
+
+
+def b_or(x, y):
+    if x[0] == "const":
+        return x if x[1] else y
+    if y[0] == "const":
+        return y if y[1] else x
+    return ("or", x, y)
+
+
+def b_ite(c, a, b):
+    """if c then a else b, on truth values"""
+    if a == b:
+        return a
+    if c[0] == "const":
+        return a if c[1] else b
+    return b_or(b_and(c, a), b_and(b_not(c), b))
+
+
 class Scope:
-    """Translation context of one target class."""
+    """Translation context of one target class: a small symbolic evaluator of the predicate
+    fragment of Python.  Values:  str = one of the advertised words ("cmds"/"caps");
+    cexpr tuple = closed integer; ("I", iexpr) = masked word; ("B", bexpr) = truth value;
+    ("T", [values]) = tuple/list; ("N",) = None; ("SELF",) = the connector.
+    Helper functions/methods of the same module/class are inlined (arguments bound to values),
+    loops over constant tuples are unrolled, if/return control flow becomes if-then-else on
+    truth values.  Anything else raises Unsupported (fail-closed)."""
+    MAX_INLINE = 6
+    BUDGET = 4000
 
     def __init__(self, cls, domain_value):
         self.cls = cls
         self.domain_value = domain_value
         self.pred_cache = {}
+        self.cache_attr = {}        # predicate name -> its memoisation attribute
+        self.steps = 0
 
-    # -- closed expressions
-    def closed(self, node, glob, loc=None):
-        if isinstance(node, ast.Name) and loc and isinstance(loc.get(node.id), tuple):
-            return loc[node.id]          # local name bound to a closed expression
-        if isinstance(node, ast.Constant) and isinstance(node.value, int) and not isinstance(node.value, bool):
-            if node.value < 0:
-                raise Unsupported("negative constant")
-            return ("c", node.value, str(node.value))
+    # -- truth value / integer views of a value
+    def truth(self, v):
+        if isinstance(v, str):
+            raise Unsupported("word %s used without a constant mask" % v)
+        if is_closed(v):
+            return ("truthy", ("iconst", v))
+        if v[0] == "I":
+            return ("truthy", v[1])
+        if v[0] == "B":
+            return v[1]
+        if v[0] == "T":
+            return ("const", len(v[1]) > 0)
+        if v[0] == "N":
+            return ("const", False)
+        raise Unsupported("no truth value for %r" % (v[0],))
+
+    def as_iexpr(self, v, what):
+        if is_closed(v):
+            return ("iconst", v)
+        if isinstance(v, tuple) and v and v[0] == "I":
+            return v[1]
+        raise Unsupported("not an integer expression of the grammar: " + what)
+
+    # -- constants of the module / class assigned once to an expression of the closed grammar
+    def module_const(self, glob, name):
+        path = glob.get("__file__")
+        if not path or not os.path.exists(path):
+            return None
+        _src, tree = _module_ast(path)
+        defs = [st for st in tree.body if isinstance(st, (ast.Assign, ast.AnnAssign, ast.AugAssign))
+                for t in (st.targets if isinstance(st, ast.Assign) else [st.target])
+                if isinstance(t, ast.Name) and t.id == name]
+        if len(defs) != 1 or isinstance(defs[0], ast.AugAssign) or defs[0].value is None:
+            return None
+        return self.ev(defs[0].value, glob, {}, 0, ("<const %s>" % name,))
+
+    def class_const(self, name):
+        for k in self.cls.__mro__:
+            if name in k.__dict__ and not callable(k.__dict__[name]) and not isinstance(k.__dict__[name], (staticmethod, classmethod, property)):
+                try:
+                    _p, _s, cn = class_node(k)
+                except (Unsupported, TypeError, OSError):
+                    return None
+                defs = [st for st in cn.body if isinstance(st, (ast.Assign, ast.AnnAssign, ast.AugAssign))
+                        for t in (st.targets if isinstance(st, ast.Assign) else [st.target])
+                        if isinstance(t, ast.Name) and t.id == name]
+                if len(defs) != 1 or isinstance(defs[0], ast.AugAssign) or defs[0].value is None:
+                    return None
+                return self.ev(defs[0].value, sys.modules[k.__module__].__dict__, {}, 0, ("<const %s>" % name,))
+        return None
+
+    def py_const(self, v, label):
+        if isinstance(v, bool):
+            return ("B", ("const", v))
+        if isinstance(v, int) and v >= 0:
+            return ("c", int(v), label)
+        if isinstance(v, (tuple, list)):
+            return ("T", [self.py_const(x, label) for x in v])
+        raise Unsupported("cannot resolve constant " + label)
+
+    # -- expressions
+    def ev(self, node, glob, loc, depth, stack=()):
+        self.steps += 1
+        if self.steps > self.BUDGET * 50:
+            raise Unsupported("predicate too large")
+        if isinstance(node, ast.Constant):
+            if isinstance(node.value, bool):
+                return ("B", ("const", node.value))
+            if isinstance(node.value, int):
+                if node.value < 0:
+                    raise Unsupported("negative constant")
+                return ("c", node.value, str(node.value))
+            if node.value is None:
+                return ("N",)
+            raise Unsupported("constant " + repr(node.value)[:30])
+        if isinstance(node, ast.Name):
+            if node.id in loc:
+                return loc[node.id]
+            if node.id == "self" and "__self__" in loc:
+                return ("SELF",)
+            v = self.module_const(glob, node.id)
+            if v is not None:
+                return v
+            raise Unsupported("unknown name in predicate: " + node.id)
         if isinstance(node, ast.Attribute) and isinstance(node.value, ast.Name):
-            holder = glob.get(node.value.id)
+            key = "%s.%s" % (node.value.id, node.attr)
+            if node.value.id == "self":
+                if key in loc:
+                    return loc[key]
+                v = self.class_const(node.attr)
+                if v is not None:
+                    return v
+                raise Unsupported("instance attribute read in predicate: " + key)
+            holder = loc.get(node.value.id, glob.get(node.value.id))
             if holder is not None and inspect.isclass(holder) and hasattr(holder, node.attr):
-                v = getattr(holder, node.attr)
-                if isinstance(v, int) and not isinstance(v, bool) and v >= 0:
-                    return ("c", int(v), "%s.%s" % (node.value.id, node.attr))
-            raise Unsupported("cannot resolve constant " + ast.unparse(node))
+                return self.py_const(getattr(holder, node.attr), key)
+            raise Unsupported("cannot resolve constant " + key)
+        if isinstance(node, (ast.Tuple, ast.List)):
+            return ("T", [self.ev(e, glob, loc, depth, stack) for e in node.elts])
         if isinstance(node, ast.BinOp):
+            a, b = self.ev(node.left, glob, loc, depth, stack), self.ev(node.right, glob, loc, depth, stack)
             ops = {ast.LShift: "shl", ast.RShift: "shr", ast.BitOr: "cor", ast.BitAnd: "cand"}
-            if type(node.op) in ops:
-                return (ops[type(node.op)], self.closed(node.left, glob, loc), self.closed(node.right, glob, loc))
-        raise Unsupported("not a closed integer expression: " + ast.unparse(node))
-
-    def iexpr(self, node, glob, loc):
-        if isinstance(node, ast.BinOp) and isinstance(node.op, ast.BitAnd):
-            for a, b in ((node.left, node.right), (node.right, node.left)):
-                if isinstance(a, ast.Name) and isinstance(loc.get(a.id), str):
-                    return ("masked", loc[a.id], self.closed(b, glob, loc))
-        if isinstance(node, ast.Name) and isinstance(loc.get(node.id), str):
-            raise Unsupported("word %s used without a constant mask" % node.id)
-        return ("iconst", self.closed(node, glob, loc))
-
-    def bexpr(self, node, glob, loc, depth):
+            if isinstance(node.op, ast.BitAnd):
+                for x, y in ((a, b), (b, a)):
+                    if isinstance(x, str) and is_closed(y):
+                        return ("I", ("masked", x, y))
+            if type(node.op) in ops and is_closed(a) and is_closed(b):
+                return (ops[type(node.op)], a, b)
+            if isinstance(a, str) or isinstance(b, str):
+                raise Unsupported("word used without a constant mask: " + ast.unparse(node))
+            raise Unsupported("not a closed integer expression: " + ast.unparse(node))
+        if isinstance(node, ast.UnaryOp) and isinstance(node.op, ast.Not):
+            return ("B", b_raw_not(self.truth(self.ev(node.operand, glob, loc, depth, stack))))
         if isinstance(node, ast.BoolOp):
-            vals = [self.bexpr(v, glob, loc, depth) for v in node.values]
+            vals = [self.truth(self.ev(v, glob, loc, depth, stack)) for v in node.values]
             tag = "and" if isinstance(node.op, ast.And) else "or"
             out = vals[-1]
             for v in reversed(vals[:-1]):
                 out = (tag, v, out)
-            return out
-        if isinstance(node, ast.UnaryOp) and isinstance(node.op, ast.Not):
-            return ("not", self.bexpr(node.operand, glob, loc, depth))
+            return ("B", out)
+        if isinstance(node, ast.IfExp):
+            c = self.truth(self.ev(node.test, glob, loc, depth, stack))
+            return self.ite(c, self.ev(node.body, glob, loc, depth, stack), self.ev(node.orelse, glob, loc, depth, stack))
         if isinstance(node, ast.Compare):
-            if len(node.ops) != 1 or type(node.ops[0]) not in CMP:
+            if len(node.ops) != 1:
                 raise Unsupported("comparison " + ast.unparse(node))
-            return ("cmp", CMP[type(node.ops[0])], self.iexpr(node.left, glob, loc),
-                    self.iexpr(node.comparators[0], glob, loc))
-        if isinstance(node, ast.Constant) and isinstance(node.value, bool):
-            return ("const", node.value)
+            op = node.ops[0]
+            left = self.ev(node.left, glob, loc, depth, stack)
+            right = self.ev(node.comparators[0], glob, loc, depth, stack)
+            if isinstance(op, (ast.In, ast.NotIn)):
+                if not (isinstance(right, tuple) and right and right[0] == "T"):
+                    raise Unsupported("membership in a non-constant collection: " + ast.unparse(node))
+                li = self.as_iexpr(left, ast.unparse(node.left))
+                out = ("const", False)
+                for e in reversed(right[1]):
+                    out = b_or(("cmp", "OEq", li, self.as_iexpr(e, ast.unparse(node))), out)
+                return ("B", b_not(out) if isinstance(op, ast.NotIn) else out)
+            if type(op) not in CMP:
+                raise Unsupported("comparison " + ast.unparse(node))
+            return ("B", ("cmp", CMP[type(op)], self.as_iexpr(left, ast.unparse(node.left)),
+                          self.as_iexpr(right, ast.unparse(node.comparators[0]))))
+        if isinstance(node, (ast.GeneratorExp, ast.ListComp)):
+            if len(node.generators) != 1 or node.generators[0].ifs or node.generators[0].is_async \
+                    or not isinstance(node.generators[0].target, ast.Name):
+                raise Unsupported("comprehension " + ast.unparse(node))
+            it = self.ev(node.generators[0].iter, glob, loc, depth, stack)
+            if not (isinstance(it, tuple) and it and it[0] == "T"):
+                raise Unsupported("comprehension over a non-constant collection: " + ast.unparse(node))
+            return ("T", [self.ev(node.elt, glob, dict(loc, **{node.generators[0].target.id: e}), depth, stack) for e in it[1]])
         if isinstance(node, ast.Call):
-            name = self.pred_call(node)
-            if name is not None:
-                if depth >= 1:
-                    raise Unsupported("nested predicate call deeper than one level: " + ast.unparse(node))
-                return self.pred(name, depth + 1)
-            if ast.unparse(node.func) == "self.device.has_domain" and len(node.args) == 1:
-                self.check_domain(node.args[0], glob)
-                return ("test", "aux", 0)
-            raise Unsupported("call in predicate: " + ast.unparse(node))
-        return ("truthy", self.iexpr(node, glob, loc))
+            return self.call(node, glob, loc, depth, stack)
+        raise Unsupported("expression in predicate: " + ast.unparse(node)[:80])
+
+    def ite(self, c, a, b):
+        if a == b:
+            return a
+        return ("B", b_ite(c, self.truth(a), self.truth(b)))
+
+    def call(self, node, glob, loc, depth, stack):
+        f = ast.unparse(node.func)
+        name = self.pred_call(node)
+        if name is not None:
+            if depth >= 1:
+                raise Unsupported("nested predicate call deeper than one level: " + ast.unparse(node))
+            return ("B", self.pred(name, depth + 1))
+        if f in ("self.device.get_domain_commands", "self.device.get_domain_capability") and len(node.args) == 1 and not node.keywords:
+            self.check_domain(node.args[0], glob, loc)
+            return "cmds" if f.endswith("commands") else "caps"
+        if f == "self.device.has_domain" and len(node.args) == 1:
+            self.check_domain(node.args[0], glob, loc)
+            return ("B", ("test", "aux", 0))
+        if f == "bool" and len(node.args) == 1 and not node.keywords:
+            return ("B", self.truth(self.ev(node.args[0], glob, loc, depth, stack)))
+        if f in ("all", "any") and len(node.args) == 1 and not node.keywords:
+            seq = self.ev(node.args[0], glob, loc, depth, stack)
+            if not (isinstance(seq, tuple) and seq and seq[0] == "T"):
+                raise Unsupported("%s() of a non-constant collection: %s" % (f, ast.unparse(node)))
+            out = ("const", f == "all")
+            for e in reversed(seq[1]):
+                out = b_and(self.truth(e), out) if f == "all" else b_or(self.truth(e), out)
+            return ("B", out)
+        # helper defined in the same module / class: inline
+        target = self.helper(node, glob, loc)
+        if target is not None:
+            fn, fglob, selfval, label = target
+            if label in stack or len(stack) >= self.MAX_INLINE:
+                raise Unsupported("helper inlining too deep / recursive: " + label)
+            if any(isinstance(a, ast.Starred) for a in node.args) or any(k.arg is None for k in node.keywords):
+                raise Unsupported("star arguments in call: " + ast.unparse(node))
+            args = [self.ev(a, glob, loc, depth, stack) for a in node.args]
+            kws = {k.arg: self.ev(k.value, glob, loc, depth, stack) for k in node.keywords}
+            return self.inline(fn, fglob, selfval, args, kws, depth, stack + (label,))
+        raise Unsupported("call in predicate: " + ast.unparse(node))
+
+    def helper(self, node, glob, loc):
+        """(FunctionDef, globals, self value or None, label) of a helper of the same module/class"""
+        f = node.func
+        if isinstance(f, ast.Name):
+            obj = glob.get(f.id)
+            if inspect.isfunction(obj) and obj.__module__ == glob.get("__name__"):
+                _src, tree = _module_ast(glob["__file__"])
+                defs = [st for st in tree.body if isinstance(st, ast.FunctionDef) and st.name == f.id]
+                if len(defs) == 1:
+                    return defs[0], glob, None, "%s.%s" % (glob.get("__name__"), f.id)
+            return None
+        if isinstance(f, ast.Attribute) and isinstance(f.value, ast.Name):
+            owner = f.value.id
+            klass = self.cls if (owner == "self" and (("__self__" in loc) or True)) else loc.get(owner, glob.get(owner))
+            if owner not in ("self",) and not (inspect.isclass(klass) and issubclass(self.cls, klass)):
+                return None
+            if not inspect.isclass(klass) or f.attr.startswith("can_") or f.attr.startswith("support_"):
+                return None
+            for k in klass.__mro__:
+                if f.attr in k.__dict__:
+                    if not k.__module__.startswith("whad."):
+                        return None
+                    raw = k.__dict__[f.attr]
+                    r = own_method(k, f.attr)
+                    if r is None:
+                        return None
+                    static = isinstance(raw, staticmethod)
+                    if isinstance(raw, (classmethod, property)):
+                        return None
+                    if owner != "self" and not static:
+                        return None
+                    return r[2], sys.modules[k.__module__].__dict__, (None if static else ("SELF",)), "%s.%s" % (k.__name__, f.attr)
+            return None
+        return None
+
+    def inline(self, fn, fglob, selfval, args, kws, depth, stack):
+        a = fn.args
+        params = [x.arg for x in a.posonlyargs + a.args]
+        nloc = {}
+        if selfval is not None:
+            if not params:
+                raise Unsupported("method without self: " + fn.name)
+            nloc["__self__"] = True
+            params = params[1:]
+        defaults = dict(zip(params[len(params) - len(a.defaults):], a.defaults)) if a.defaults else {}
+        for i, pname in enumerate(params):
+            if i < len(args):
+                nloc[pname] = args[i]
+            elif pname in kws:
+                nloc[pname] = kws.pop(pname)
+            elif pname in defaults:
+                nloc[pname] = self.ev(defaults[pname], fglob, {}, depth, stack)
+            else:
+                raise Unsupported("missing argument %s of %s" % (pname, fn.name))
+        extra = args[len(params):]
+        if a.vararg is not None:
+            nloc[a.vararg.arg] = ("T", list(extra))
+        elif extra:
+            raise Unsupported("too many arguments for " + fn.name)
+        for x, d in zip(a.kwonlyargs, a.kw_defaults):
+            if x.arg in kws:
+                nloc[x.arg] = kws.pop(x.arg)
+            elif d is not None:
+                nloc[x.arg] = self.ev(d, fglob, {}, depth, stack)
+            else:
+                raise Unsupported("missing keyword argument %s of %s" % (x.arg, fn.name))
+        if kws:
+            raise Unsupported("unexpected keyword argument(s) %s of %s" % (sorted(kws), fn.name))
+        return self.run(strip_doc(fn.body), fglob, nloc, depth, stack, None)
+
+    # -- statements: value of `stmts` followed by continuation `cont`
+    def run(self, stmts, glob, loc, depth, stack, cont):
+        self.steps += 1
+        if self.steps > self.BUDGET * 50:
+            raise Unsupported("predicate too large")
+        if not stmts:
+            return cont(loc) if cont else ("N",)
+        st, rest = stmts[0], stmts[1:]
+        again = lambda l: self.run(rest, glob, l, depth, stack, cont)
+        if isinstance(st, ast.Pass) or (isinstance(st, ast.Expr) and isinstance(st.value, ast.Constant)):
+            return again(loc)
+        if isinstance(st, ast.Return):
+            return self.ev(st.value, glob, loc, depth, stack) if st.value is not None else ("N",)
+        if isinstance(st, (ast.Assign, ast.AnnAssign)):
+            targets = st.targets if isinstance(st, ast.Assign) else [st.target]
+            if len(targets) != 1 or st.value is None:
+                raise Unsupported("assignment " + ast.unparse(st)[:60])
+            t = targets[0]
+            if isinstance(t, ast.Name):
+                return again(dict(loc, **{t.id: self.ev(st.value, glob, loc, depth, stack)}))
+            if isinstance(t, ast.Attribute) and ast.unparse(t) == loc.get("__cache__"):
+                return again(dict(loc, **{ast.unparse(t): self.ev(st.value, glob, loc, depth, stack)}))
+            raise Unsupported("statement in predicate: " + ast.unparse(st)[:80] +
+                              (" (statement in memoisation block)" if loc.get("__cache__") else ""))
+        if isinstance(st, ast.If):
+            t = st.test
+            # memoisation idiom of a predicate: `if self.__c is None: ...; self.__c = expr` ... `return self.__c`
+            if not st.orelse and isinstance(t, ast.Compare) and len(t.ops) == 1 and isinstance(t.ops[0], ast.Is) \
+                    and isinstance(t.comparators[0], ast.Constant) and t.comparators[0].value is None \
+                    and isinstance(t.left, ast.Attribute) and ast.unparse(t.left).startswith("self.") \
+                    and loc.get("__pred__") and not loc.get("__cache__"):
+                cache = ast.unparse(t.left)
+                self.cache_attr[loc["__pred__"]] = cache
+                # first call (cache empty): the block runs, then what follows; later calls return the stored
+                # value, which is the same expression of the (immutable) advertised words
+                val = self.run(list(st.body) + list(rest), glob, dict(loc, __cache__=cache), depth, stack, cont)
+                if cache not in self._assigned(st.body):
+                    raise Unsupported("memoisation block does not assign " + cache)
+                return val
+            c = self.truth(self.ev(t, glob, loc, depth, stack))
+            a = self.run(list(st.body), glob, loc, depth, stack, again)
+            b = self.run(list(st.orelse), glob, loc, depth, stack, again)
+            return self.ite(c, a, b)
+        if isinstance(st, ast.For):
+            if not isinstance(st.target, ast.Name) or any(isinstance(x, (ast.Break, ast.Continue)) for x in ast.walk(st)):
+                raise Unsupported("loop " + ast.unparse(st).split("\n")[0][:60])
+            it = self.ev(st.iter, glob, loc, depth, stack)
+            if not (isinstance(it, tuple) and it and it[0] == "T"):
+                raise Unsupported("loop over a non-constant collection: " + ast.unparse(st.iter))
+            elems = it[1]
+            def step(i, l):
+                if i == len(elems):
+                    return self.run(list(st.orelse), glob, l, depth, stack, again)
+                return self.run(list(st.body), glob, dict(l, **{st.target.id: elems[i]}), depth, stack,
+                                lambda l2: step(i + 1, l2))
+            return step(0, loc)
+        raise Unsupported("statement in predicate: " + ast.unparse(st).split("\n")[0][:80])
+
+    @staticmethod
+    def _assigned(stmts):
+        return {ast.unparse(t) for s in stmts for n in ast.walk(s) if isinstance(n, ast.Assign) for t in n.targets}
+
+    # -- interface used by the guard-program translator
+    def closed(self, node, glob, loc=None):
+        v = self.ev(node, glob, loc or {}, 0)
+        if not is_closed(v):
+            raise Unsupported("not a closed integer expression: " + ast.unparse(node))
+        return v
+
+    def bexpr(self, node, glob, loc, depth):
+        return self.truth(self.ev(node, glob, loc, depth))
 
     @staticmethod
     def pred_call(node):
@@ -269,9 +600,9 @@ class Scope:
             return node.func.attr
         return None
 
-    def check_domain(self, node, glob):
-        c = self.closed(node, glob)
-        if c[0] != "c" or c[1] != self.domain_value:
+    def check_domain(self, node, glob, loc=None):
+        c = self.closed(node, glob, loc)
+        if c_eval(c) != self.domain_value:
             raise Unsupported("queries domain %s, the connector's domain is 0x%08x" % (ast.unparse(node), self.domain_value))
 
     def binding(self, stmt, glob):
@@ -292,49 +623,13 @@ class Scope:
         glob = sys.modules[k.__module__].__dict__
         if len(fn.args.args) != 1 or fn.args.vararg or fn.args.kwarg or fn.args.kwonlyargs:
             raise Unsupported("predicate %s takes arguments" % name)
-        res = self.pred_body(strip_doc(fn.body), glob, {}, depth)
+        res = self.truth(self.run(strip_doc(fn.body), glob, {"__pred__": name, "__self__": True}, depth, (name,), None))
         self.pred_cache[key] = res
         return res
 
-    def pred_body(self, body, glob, loc, depth):
-        loc = dict(loc)
-        memo = {}
-        for i, st in enumerate(body):
-            b = self.binding(st, glob)
-            if b:
-                loc[b[0]] = b[1]
-                continue
-            if isinstance(st, ast.Assign) and len(st.targets) == 1 and isinstance(st.targets[0], ast.Name):
-                loc[st.targets[0].id] = self.closed(st.value, glob, loc)     # NAME = closed expression
-                continue
-            if isinstance(st, ast.Return) and st.value is not None:
-                if i != len(body) - 1:
-                    raise Unsupported("statements after return")
-                if isinstance(st.value, ast.Attribute) and ast.unparse(st.value) in memo:
-                    return memo[ast.unparse(st.value)]
-                return self.bexpr(st.value, glob, loc, depth)
-            if isinstance(st, ast.If) and not st.orelse and isinstance(st.test, ast.Compare) \
-                    and len(st.test.ops) == 1 and isinstance(st.test.ops[0], ast.Is) \
-                    and isinstance(st.test.comparators[0], ast.Constant) and st.test.comparators[0].value is None \
-                    and isinstance(st.test.left, ast.Attribute) and ast.unparse(st.test.left).startswith("self."):
-                cache = ast.unparse(st.test.left)
-                iloc = dict(loc)
-                val = None
-                for s2 in st.body:
-                    b2 = self.binding(s2, glob)
-                    if b2:
-                        iloc[b2[0]] = b2[1]
-                    elif isinstance(s2, ast.Assign) and len(s2.targets) == 1 and ast.unparse(s2.targets[0]) == cache \
-                            and val is None:
-                        val = self.bexpr(s2.value, glob, iloc, depth)
-                    else:
-                        raise Unsupported("statement in memoisation block: " + ast.unparse(s2))
-                if val is None:
-                    raise Unsupported("memoisation block does not assign " + cache)
-                memo[cache] = val
-                continue
-            raise Unsupported("statement in predicate: " + ast.unparse(st)[:80])
-        raise Unsupported("predicate without return")
+
+def b_raw_not(x):
+    return ("not", x)
 
 
 # -- evaluation / rendering of trees ----------------------------------------------------
@@ -514,26 +809,51 @@ class GuardTr:
                         return kk
         return None
 
-    def inline_guarded(self, call, glob):
-        """`self.m(args)` as a statement, where m is itself a guarded operation (calls a predicate,
-        reads the command word or raises Unsupported*): its body is inlined (one level) so that the
-        bits ITS guard reads appear in the program (e.g. Peripheral.__init__ -> set_bd_address)."""
+    def inline_guarded(self, call, glob, loc):
+        """`self.m(args)` / `_helper(args)` as a statement, where the callee is itself guarded (calls a
+        predicate, reads the command word or raises Unsupported*): its body is inlined (one level) so
+        that the bits ITS guard reads appear in the program (e.g. Peripheral.__init__ ->
+        set_bd_address, or a guard clause extracted into a helper).  Parameters are bound to the
+        arguments that evaluate in the predicate grammar (masks, constants, predicate values)."""
         f = call.func
-        if self.inline_depth > 0 or not (isinstance(f, ast.Attribute) and isinstance(f.value, ast.Name) and f.value.id == "self"):
+        if self.inline_depth > 0 or Scope.pred_call(call):
             return None
-        if f.attr.startswith("__") or Scope.pred_call(call):
+        if isinstance(f, ast.Attribute) and f.attr.startswith("__") and f.attr.endswith("__"):
             return None
         if any(not self.call_safe(c, glob) for a in list(call.args) + [kw.value for kw in call.keywords]
                for c in ast.walk(a) if isinstance(c, ast.Call)):
             return None
-        try:
-            mk, _p, _s, fn = resolve_method(self.scope.cls, f.attr)
-        except Unsupported:
-            return None
+        if isinstance(f, ast.Attribute) and isinstance(f.value, ast.Name) and f.value.id == "self":
+            try:
+                mk, _p, _s, fn = resolve_method(self.scope.cls, f.attr)
+            except Unsupported:
+                return None
+            fglob, is_method = sys.modules[mk.__module__].__dict__, not isinstance(mk.__dict__.get(f.attr), staticmethod)
+        else:
+            h = self.scope.helper(call, glob, loc)
+            if h is None:
+                return None
+            fn, fglob, selfval, _label = h
+            mk, is_method = self.scope.cls, selfval is not None
         guarded = any(Scope.pred_call(x) for x in ast.walk(fn) if isinstance(x, ast.Call)) \
             or any(isinstance(x, ast.Raise) and x.exc is not None and "Unsupported" in ast.unparse(x.exc) for x in ast.walk(fn)) \
             or "get_domain_commands" in ast.unparse(fn)
-        return (mk, fn) if guarded else None
+        if not guarded:
+            return None
+        params = [x.arg for x in fn.args.args][(1 if is_method else 0):]
+        ploc = {}
+        pairs = list(zip(params, call.args)) + [(k.arg, k.value) for k in call.keywords if k.arg in params]
+        for pname, anode in pairs:
+            try:
+                ploc[pname] = self.scope.ev(anode, glob, loc, -1)
+            except Unsupported:
+                pass
+        if fn.args.vararg is not None and len(call.args) >= len(params):
+            try:
+                ploc[fn.args.vararg.arg] = ("T", [self.scope.ev(a, glob, loc, -1) for a in call.args[len(params):]])
+            except Unsupported:
+                pass
+        return mk, fn, fglob, ploc
 
     def in_scope_connector(self, k):
         return self.is_connector(k) and k.__module__.startswith("whad.") and ".connector" in k.__module__ \
@@ -591,6 +911,16 @@ class GuardTr:
             if b:
                 loc[b[0]] = b[1]
                 return self.seq(rest, k, retk, defcls, glob, loc)
+            if isinstance(st, ast.Assign) and len(st.targets) == 1 and isinstance(st.targets[0], ast.Name):
+                # a local bound to an expression of the predicate grammar (mask test, helper result, constant)
+                try:
+                    v = self.scope.ev(st.value, glob, loc, -1)
+                except Unsupported:
+                    v = None
+                    loc.pop(st.targets[0].id, None)     # rebound to something outside the grammar
+                if v is not None and (self.mask_dependent(v) or is_closed(v) or v[0] == "T"):
+                    loc[st.targets[0].id] = v
+                    return ("call", False, ast.unparse(st).split("\n")[0], self.seq(rest, k, retk, defcls, glob, loc))
             call = st.value if isinstance(st, ast.Expr) and isinstance(st.value, ast.Call) else None
             if call is not None:
                 bk = self.base_init(call, defcls, glob)
@@ -607,14 +937,13 @@ class GuardTr:
                     tx = any(not self.call_safe(c, glob) for a in list(call.args) + [kw.value for kw in call.keywords]
                              for c in ast.walk(a) if isinstance(c, ast.Call))
                     return ("call", tx, "%s.__init__" % bk.__name__, restg)
-                inl = self.inline_guarded(call, glob)
+                inl = self.inline_guarded(call, glob, loc)
                 if inl is not None:
-                    mk, fn = inl
+                    mk, fn, fglob, ploc = inl
                     restg = self.seq(rest, k, retk, defcls, glob, loc)
                     self.inline_depth += 1
                     try:
-                        return self.seq(strip_doc(fn.body), restg, lambda kind: restg, mk,
-                                        sys.modules[mk.__module__].__dict__, {})
+                        return self.seq(strip_doc(fn.body), restg, lambda kind: restg, mk, fglob, ploc)
                     except Unsupported:
                         pass        # fall back to an opaque, possibly transmitting call
                     finally:
@@ -657,16 +986,28 @@ class GuardTr:
         g = ("choice", ast.unparse(test), T, E)
         return ("call", True, nm, g) if tx else g
 
+    @staticmethod
+    def mask_dependent(v):
+        return isinstance(v, str) or (isinstance(v, tuple) and len(v) > 0 and v[0] in ("I", "B"))
+
     def pure_atom(self, test, glob, loc):
         """bexpr if the atom depends on the advertised masks only, None if opaque"""
-        mentions = any((isinstance(n, ast.Name) and n.id in loc) for n in ast.walk(test))
+        mentions = any((isinstance(n, ast.Name) and self.mask_dependent(loc.get(n.id))) for n in ast.walk(test))
         has_pred = any(Scope.pred_call(n) for n in ast.walk(test) if isinstance(n, ast.Call))
-        has_dom = any(isinstance(n, ast.Call) and ast.unparse(n.func) == "self.device.has_domain" for n in ast.walk(test))
-        if not (mentions or has_pred or has_dom):
+        has_dom = any(isinstance(n, ast.Call) and ast.unparse(n.func) in ("self.device.has_domain", "self.device.get_domain_commands",
+                                                                          "self.device.get_domain_capability") for n in ast.walk(test))
+        has_helper = any(isinstance(n, ast.Call) and not self.call_safe(n, glob) and self.scope.helper(n, glob, loc) is not None
+                         for n in ast.walk(test))
+        if not (mentions or has_pred or has_dom or has_helper):
             return None
         # a predicate called from a constructor / operation is inlined at depth 0 (it may
-        # itself call one further predicate)
-        return self.scope.bexpr(test, glob, loc, -1)
+        # itself call one further predicate); same-module / same-class helpers are inlined
+        try:
+            return self.scope.bexpr(test, glob, loc, -1)
+        except Unsupported:
+            if mentions or has_pred or has_dom:
+                raise           # depends on the masks but is outside the grammar: fail-closed
+            return None         # a helper that reads connector state / arguments: opaque condition
 
 
 # --------------------------------------------------------------------------------------
@@ -768,6 +1109,16 @@ def translate(repo=None, want_ops=()):
             except Unsupported as e:
                 item["error"] = str(e)
             out["preds"].append(item)
+        # a memoisation attribute must belong to ONE predicate (else one predicate's cache feeds another)
+        owners = {}
+        for pn, attr in sc.cache_attr.items():
+            owners.setdefault(attr, []).append(pn)
+        for attr, pns in owners.items():
+            if len(pns) > 1:
+                for it in out["preds"]:
+                    if it["domain"] == dk and it["method"] in pns and "error" not in it:
+                        it["error"] = "memoisation attribute %s is shared by predicates %s" % (attr, sorted(pns))
+                        it.pop("coq", None)
     cap = importlib.import_module("whad.hub.discovery").Capability
     out["enums"]["Capability"] = {k: int(v) for k, v in vars(cap).items() if not k.startswith("_") and isinstance(v, int)}
     # --- constructors
